@@ -471,17 +471,19 @@ def _judge(trace, pi, oi, rec, log, stats, tainted, cold_dir, env):
 
 
 def _producer(trace, pi, oi):
-    """The select op whose result the cache holds at (pi, oi): the latest earlier select of the same settings with no
-    reset of that settings' selection cache in between - or this op itself if there is none."""
+    """The select op that computed what the selection cache holds at (pi, oi): scanning forward, the first selection of
+    these settings after the last reset of their selection cache computes and writes; a later selection only replaces the
+    entry if it runs with cache=False (it then recomputes and writes); selections with cache=True are hits."""
     op = trace['phases'][pi]['ops'][oi]
     flat = [(a, b, o) for a, p in enumerate(trace['phases']) for b, o in enumerate(p['ops'])]
     idx = flat.index((pi, oi, op))
-    prod = (pi, oi)
-    for a, b, o in reversed(flat[:idx]):
-        if o[0] in ('reset_all',) or (o[0] == 'reset_sel' and o[1] == op[1]):
-            break
-        if o[0] == 'select' and o[1] == op[1]:
-            return (a, b)  # every selection (also with cache=False) writes the selection cache: the latest one produced it
+    prod = None
+    for a, b, o in flat[:idx + 1]:
+        if o[0] == 'reset_all' or (o[0] == 'reset_sel' and o[1] == op[1]):
+            prod = None
+        elif o[0] == 'select' and o[1] == op[1]:
+            if prod is None or not o[2]:
+                prod = (a, b)
     return prod
 
 
